@@ -232,7 +232,7 @@ func parseContractFile(path, pkgPath string) (*ContractFile, error) {
 				lastSp = sp
 				curLem = nil
 			}
-		case "guarded", "held", "goroutines", "public", "nostore", "before", "detached":
+		case "guarded", "held", "goroutines", "public", "nostore", "before", "detached", "frozen":
 			if err := flush(); err != nil {
 				return nil, err
 			}
@@ -257,6 +257,10 @@ func parseContractFile(path, pkgPath string) (*ContractFile, error) {
 				g.Func, g.Param = fs[0], fs[1]
 			case (word == "goroutines" || word == "nostore" || word == "detached") && len(fs) == 1:
 				g.Func = fs[0]
+			case word == "frozen" && len(fs) == 1 && strings.Count(fs[0], ".") == 2:
+				// frozen pkg.Type.field
+				i := strings.LastIndex(fs[0], ".")
+				g.Type, g.Fields = fs[0][:i], []string{fs[0][i+1:]}
 			case word == "before" && len(fs) == 3:
 				// before <func> <calleeA> <calleeB>: every call of B is dominated by a call of A
 				g.Func, g.Fields = fs[0], fs[1:]
